@@ -15,10 +15,13 @@ scalars `n f l r t b` (near, far, left, right, top, bottom); the perspective and
 textual copies in the source and are extracted and proved separately (`…_persp`, `…_ortho`).  All statements are over an
 arbitrary ordered field.  Imath's camera looks down −z.
 
-Hand models (H-route, Gen/C16PlanesM.lean, emitted from the transcript in harness/sym/c16_hand.h and tied to the real
+Hand model (H-route, Gen/C16PlanesM.lean, emitted from the transcript in harness/sym/c16_hand.h and tied to the real
 code by bitwise translation validation at double on every run): `planes (p, M)` (`double (_nearPlane)` cannot be
-instantiated symbolically) and `depthToZp`, the real-valued core of `DepthToZ` (`long (…)`).  NOT proved: the
-`long` truncation in `ZToDepth`/`DepthToZ`, and all rounding — measured by harness/corr/c16_corr.cpp.
+instantiated symbolically).  `depthToZp`, the real-valued core of `DepthToZ`, is also emitted from a transcript, but it is
+PROVED (Props/C16Z.lean `depthToZp_*_real_body`) equal to the operand of the `long (…)` cast of the real body, which is
+extracted as `Gen.Frustum.DepthToZ_*_3_10`.  The machine-integer parts of `ZToDepth`/`DepthToZ` are in Props/C16Z.lean;
+the culling clauses stated about the frustum itself, unit normals of `planes (p, M)`, mirrored camera matrices and
+evaluated witnesses are in Props/C16Cull.lean.  All rounding is measured by harness/corr/c16_corr.cpp, never proved.
 
 `Vec3::length` is an opaque call of `Gen.V3.length`; theorems that depend on normalisation take the hypothesis
 `LenSpec (Gen.V3.length tmin tmax sqrt)` (non-negative, squares to the sum of squares), shown satisfiable at the end.
